@@ -68,4 +68,18 @@ CHECKS = {
              "distinct_nontrivial = distinct inputs that got past the parser",
         assumptions=["a process-fatal error of a child is attributed to the last logged case range"],
     ),
+    "C13": dict(
+        claim="Exploration: generated hash chains (all four log types x both target types, real constructors and ChainLog) are pushed through both stored forms - the JSON form (Marshal/Unmarshal/Marshal) and the store row form (the values the real InsertLogs hands to the driver, rebuilt as PostgreSQL returns them, decoded by Logs.ToCore) - and the hash is recomputed independently from the read-back content and the previous stored hash.",
+        note="Trusted: PostgreSQL returns bytea unchanged, jsonb up to key order/whitespace, timestamptz at microsecond precision in UTC. Entry dates are UTC (the engine stamps ledger.Now()); invalid UTF-8 is excluded (cannot reach the log through JSON decoding, and PostgreSQL refuses it).",
+        technique="round-trip monitor with independent hash recomputation over generated log chains; recording database/sql driver under the real InsertLogs",
+        engine="logmon", level="exploration",
+        runs=[dict(mode="", shards={"quick": 4, "thorough": 16}, timeout=T)],
+        thresholds={"quick": {"evaluations": 3000, "json_roundtrips": 3000, "row_roundtrips": 3000, "kind_NEW_TRANSACTION/-": 200, "kind_REVERTED_TRANSACTION/-": 200,
+                              "kind_SET_METADATA/ACCOUNT": 200, "kind_SET_METADATA/TRANSACTION": 200, "kind_DELETE_METADATA/ACCOUNT": 200, "kind_DELETE_METADATA/TRANSACTION": 200},
+                    "thorough": {"evaluations": 500000, "row_roundtrips": 500000}},
+        rule="chains of 1..200 entries built with the repository's constructors (random postings with >64-bit amounts, metadata nil/empty/unicode/"
+             "JSON-special, references, idempotency keys, timestamps from ParseTime of RFC 3339 texts with offsets and 0-9 fractional digits, and Now()); "
+             "each entry is one evaluation; distinct_nontrivial = distinct stored JSON texts",
+        assumptions=["PostgreSQL column behaviour as stated in level_note", "encoding/json is the system's own encoding of the content"],
+    ),
 }
